@@ -10,6 +10,7 @@ CONSTANTS
   MCExtra = {0, 1, 2}
   MCMulti = {FALSE}
   MCHow = {"generic", "cni"}
+  MCSteal = TRUE
   MCEniGone = FALSE
   MCEnis = {1, 2}
   BadDesign = ""
